@@ -28,6 +28,9 @@ def run(ctx):
     ctx.guard(keys, ctx, am)
     ctx.guard(new_rule, ctx, am)
     ctx.guard(shared, ctx)
+    from . import c02 as _c02, c10 as _c10
+    ctx.shared(_c02.pair_and_kinds, ctx, am)   # the batch connect of populate_connections is mirrored on both directed links
+    ctx.shared(_c10.typecase, ctx, ['xtuml.meta'], 'C10-TYPECASE')   # _is_null decides which referential values count as null
     ctx.assume('equality of the hash join with the relational join for all value types (== / hash agreement) is not decided')
     return ('Ordering and once-only rules on ModelLoader.populate; isinstance partition of the statement classes vs the grammar '
             'actions; call-graph funnel of all input routes into ModelLoader.input; sibling agreement of compute_lookup_key / '
@@ -358,15 +361,38 @@ def keys(ctx, am):
             return s['ty'].upper() == lit.value
         return None
 
+    def namecmp(e, s, tr):
+        '''attribute name vs requested name: equal ignoring case is the loop element's flag; a comparison that does not normalise
+        both sides additionally needs the two spellings to be identical'''
+        sides = [e['_A'], e['_B']]
+        def has(x, nm):
+            return any(isinstance(n, ast.Name) and n.id == nm for n in ast.walk(x))
+        a_side = [x for x in sides if has(x, 'attr_name')]
+        n_side = [x for x in sides if has(x, np_)]
+        if len(a_side) != 1 or len(n_side) != 1 or a_side[0] is n_side[0]:
+            return None
+        def norm(x, nm):
+            return isinstance(x, ast.Call) and isinstance(x.func, ast.Attribute) and x.func.attr in ('upper', 'lower', 'casefold') and \
+                isinstance(x.func.value, ast.Name) and x.func.value.id == nm and not x.args
+        def raw(x, nm):
+            return isinstance(x, ast.Name) and x.id == nm
+        an = True if norm(a_side[0], 'attr_name') else (False if raw(a_side[0], 'attr_name') else None)
+        nn = True if (norm(n_side[0], np_) or (raw(n_side[0], np_) and s.get('name_norm'))) else (False if raw(n_side[0], np_) else None)
+        if an is None or nn is None:
+            return None
+        match = s['env']['attr_name'][0]
+        return match if (an and nn) else (match and s['same_spelling'])
+
+    def name_norm(e, s, tr):
+        s['name_norm'] = True
+        return True
     atoms = [('%s in %s.__dict__' % (np_, ip), lambda e, s, tr: True),
              ('value', lambda e, s, tr: s['value'] == 'truthy'),
              ('value is None', lambda e, s, tr: s['value'] == 'none'),
-             ('attr_name.upper() != %s' % np_, lambda e, s, tr: not s['env']['attr_name'][0]),
-             ('attr_name.upper() == %s' % np_, lambda e, s, tr: s['env']['attr_name'][0]),
-             ('attr_name.upper() != %s.upper()' % np_, lambda e, s, tr: not s['env']['attr_name'][0]),
-             ('attr_name.upper() == %s.upper()' % np_, lambda e, s, tr: s['env']['attr_name'][0]),
-             ('attr_ty == _L', tycmp)]
-    effects = [('value = _V', lambda e, s, tr: True), ('%s = %s.upper()' % (np_, np_), lambda e, s, tr: True),
+             ('attr_ty == _L', tycmp),
+             ('_A != _B', lambda e, s, tr: (None if namecmp(e, s, tr) is None else not namecmp(e, s, tr))),
+             ('_A == _B', namecmp)]
+    effects = [('value = _V', lambda e, s, tr: True), ('%s = %s.upper()' % (np_, np_), name_norm), ('%s = %s.lower()' % (np_, np_), name_norm),
                ('metaclass = get_metaclass(%s)' % ip, lambda e, s, tr: True), ('attr_ty = attr_ty.upper()', lambda e, s, tr: True)]
     iters = [('metaclass.attributes', lambda e, s, tr: [(False, 'x'), (True, 'y')])]
     it = absint.Interp(fn, atoms, effects, iters=iters)
@@ -378,10 +404,12 @@ def keys(ctx, am):
         env['attr_name'] = element
         env['attr_ty'] = element
     it.bind = bind
-    for value, ty in itertools.product(['none', 'truthy', 'falsy'], ['UNIQUE_ID', 'unique_id', 'STRING', 'INTEGER', 'BOOLEAN', 'REAL']):
-        state = {'value': value, 'ty': ty}
+    for value, ty, same in itertools.product(['none', 'truthy', 'falsy'], ['UNIQUE_ID', 'unique_id', 'STRING', 'INTEGER', 'BOOLEAN', 'REAL'], [True, False]):
+        state = {'value': value, 'ty': ty, 'same_spelling': same}
         out, tr = it.run(state)
         got = src(out.value) if out.kind == 'return' and out.value is not None else None
+        if got in (None, 'None') and out.kind in ('return', 'falloff'):
+            got = 'False'       # the callers only test the truth of the result
         if value == 'truthy':
             want = 'False'
         elif value == 'none':
@@ -392,9 +420,10 @@ def keys(ctx, am):
             want = 'len(value) == 0'
         else:
             want = 'False'
-        r.check(got == want, '_is_null(value %s, type %s) -> %s' % (value, ty, want), fn, construct='xtuml.meta:_is_null', key='null %s %s' % (value, ty.upper()),
-                msg='_is_null for a %s value of type %s yields `%s`; expected `%s` (0 id and empty string are null, other falsy values are not)'
-                    % (value, ty, got, want))
+        r.check(got == want, '_is_null(value %s, type %s%s) -> %s' % (value, ty, '' if same else ', attribute named in another letter case', want), fn,
+                construct='xtuml.meta:_is_null', key='null %s %s' % (value, ty.upper()),
+                msg='_is_null for a %s value of type %s%s yields `%s`; expected `%s` (0 id and empty string are null, other falsy values are not)'
+                    % (value, ty, '' if same else ' whose attribute is named in another letter case than declared', got, want))
 
 
 def new_rule(ctx, am):
